@@ -100,6 +100,8 @@ type Proc struct {
 	stepHits           map[string]int
 	writes             int
 	cancelled          atomic.Bool // written by the controller, read by the process goroutine
+	cancelAt           time.Duration
+	sleepsAfterCancel  int
 	startStep, endStep int64
 	ending             atomic.Bool  // the program has returned: what follows is the deferred rollback and release
 	out                *stampWriter // (read by observers only while the process is parked)
@@ -120,6 +122,8 @@ type ProcResult struct {
 	StdoutFaults       int           `json:"stdout_faults,omitempty"`
 	EndStep            int64         `json:"end_step"`
 	EndTime            time.Duration `json:"end_time_ns"`
+	CancelTime         time.Duration `json:"cancel_time_ns,omitempty"`      // simulated time at which the process was cancelled (0: never)
+	SleepsAfterCancel  int           `json:"sleeps_after_cancel,omitempty"` // retry sleeps of a lock wait begun after the cancellation
 	Uneven             string        `json:"uneven,omitempty"`
 }
 
@@ -513,6 +517,8 @@ func (k *Kernel) accept(a *arrival) {
 		p.endStep = k.step.Load()
 		p.res.EndStep = p.endStep
 		p.res.EndTime = k.Now()
+		p.res.CancelTime = p.cancelAt
+		p.res.SleepsAfterCancel = p.sleepsAfterCancel
 		k.logf("done p%d exit=%d err=%s t=%v", p.idx, p.res.ExitCode, k.Norm(p.res.ErrText), k.Now())
 		for _, og := range k.glist {
 			if og.proc == p && og.undo != nil {
@@ -573,6 +579,9 @@ func (k *Kernel) accept(a *arrival) {
 	} else {
 		k.logf("at g%d p%d %s/%d", g.id, g.proc.idx, a.point, a.idx)
 	}
+	if a.point == "cf.retry.sleep" && g.proc.cancelAt > 0 {
+		g.proc.sleepsAfterCancel++
+	}
 	for _, o := range k.obs {
 		o.OnArrival(k, g, a)
 	}
@@ -616,6 +625,7 @@ func (k *Kernel) accept(a *arrival) {
 		}
 		if c.Proc == g.proc.idx && c.AtYield == g.proc.yields && g.proc.cancel != nil && !g.proc.cancelled.Load() {
 			g.proc.cancelled.Store(true)
+			g.proc.cancelAt = k.Now() + 1
 			k.logf("cancel p%d at yield %d (%s)", g.proc.idx, g.proc.yields, a.point)
 			k.Stats.fault("cancel")
 			k.Stats.probe("cancel@" + pointClass(a.point))
